@@ -7,6 +7,7 @@ import (
 	"fmt"
 	"math/big"
 	"os"
+	"strings"
 	"sync"
 
 	ledger "github.com/formancehq/ledger/internal"
@@ -29,6 +30,16 @@ var cacheTexts = map[string]string{
 	"t4": "send [USD 3] (\n  source = @a\n  destination = @x\n)\n\nset_tx_meta(\"note\", \"a  b\")\n",
 }
 var cacheVars = map[string]map[string]string{"t3": {"amt": "USD 3"}}
+
+// t5 and t6: long scripts (over 4 KiB) of equal length that differ only in their last statement
+func init() {
+	var sb strings.Builder
+	for i := 0; i < 60; i++ {
+		fmt.Fprintf(&sb, "send [USD 1] (\n\tsource = @world\n\tdestination = @filler:%04d\n)\n", i)
+	}
+	cacheTexts["t5"] = sb.String() + "send [USD 2] (\n\tsource = @a\n\tdestination = @x\n)\n"
+	cacheTexts["t6"] = sb.String() + "send [USD 3] (\n\tsource = @a\n\tdestination = @y\n)\n"
+}
 
 func runProgram(p *program.Program, name string) string {
 	defer func() { _ = recover() }()
